@@ -15,14 +15,15 @@ from ..common import resolve_single_assign, in_loop, ancestors
 from ..selftest import Seed
 
 META = {
-    "technique": "call-count path enumeration with exception edges, guard dominance, def-use inside the activation, who-may-write",
+    "technique": "call-count path enumeration with exception edges, guard dominance, def-use inside the activation, who-may-write, purity of the signature-inspection helpers, admission/dispatch class agreement",
     "level_text": "Static proof over all paths of KGLambda.__call__/call_with_kwargs, KGFnWrapper.__call__ and the store/read entry points: one invocation per application, arity guard dominating every dispatch, call-time resolution, at most one dispatch even when the dispatched call raises, unconverted pass-through. Reaches the exceptional paths and redefinition/deletion histories that the handful of interop tests do not; does not decide argument routing for arbitrary signatures.",
     "level_note": "decides the structural clause below from source; does not decide the behaviour. Trusted: inspect.signature describes runtime callables (not analysed); `raise` leaves the function; any call may raise, including the dispatched Klong call.",
     "explanation": (
         "Static analysis of klongpy/types.py (KGLambda, KGFnWrapper), klongpy/interpreter.py (set_context_var, __setitem__/__getitem__/"
         "__delitem__) and klongpy/sys_fn.py (_handle_import): per-path call counts with exception edges (a dispatch that raises has "
         "happened), dominance of each dispatch by a len(args)-vs-arity comparison on the dispatched object, reaching definitions of the "
-        "dispatched function inside __call__, who-may-write of the wrapper's symbol, and shape checks of the store/read paths."),
+        "dispatched function inside __call__, who-may-write of the wrapper's symbol, and shape checks of the store/read paths."
+        " R6: helpers that derive parameter lists from a callable write no shared state; R7: the classes _resolve_fn admits as function values for x/y/z include the classes _eval_fn invokes; the given symbol has priority over the identity search in the wrapper."),
     "assumptions": ["the wrapped callable is reached only through self.fn", "the interpreter is reached as self.klong inside the wrapper"],
 }
 
